@@ -198,7 +198,14 @@ def t2_summaries():
                         total = total + d * (1 << lo)
                 out_le = enc_int(_norm(total), size, "little")
             order = _flush_order(interp, self)
-            self.stream.write(SBytes(out_le if order == "little" else list(reversed(out_le))))
+            out = out_le if order == "little" else list(reversed(out_le))
+            # ghost: output offsets that hold only unassigned bits of a unit (written as zero)
+            pos0 = self.stream.tell() if hasattr(self.stream, "tell") else None
+            if pos0 is not None:
+                for k, b in enumerate(out):
+                    if isinstance(b, int) and b == 0:
+                        g.setdefault("slack", []).append((getattr(self.stream, "name", None), _norm(zint(pos0) + k)))
+            self.stream.write(SBytes(out))
         self._type = None
         self._remaining = 0
         self._buffer = 0
